@@ -85,6 +85,10 @@ func main() {
 					}
 				}
 			}
+			// 1b. constructor histories: maps built one after another with different option sets
+			if want(e, vn+"/ctor-history") {
+				schedules += ctorHistory(e, v, vn+"/ctor-history")
+			}
 			// 2. random schedules
 			if want(e, vn+"/random") {
 				for i := 0; i < nRandom; i++ {
